@@ -1,6 +1,8 @@
 """C07 - re-indexing operations never move triangles or misalign attached data."""
 import numpy as np
 
+import common
+
 LEVEL = "proof"
 N_CASES = {"quick": 1500, "thorough": 60000}
 RULE = ("random meshes of 3-10 vertices (with duplicated positions, unreferenced vertices, NaN/inf rows in the "
@@ -386,3 +388,44 @@ def nontrivial(c, o):
     if "err" in o:
         return False
     return o["before"].get("faces") != o["after"].get("faces") or o["before"]["nv"] != o["after"]["nv"]
+
+
+# ------------------------------------------------------------------ (G) what the two masking methods slice
+
+def translate(ctx):
+    """by ast from base.py: every array `Trimesh.update_faces` / `update_vertices` indexes with the mask (or hands the
+    mask to), and the re-indexing of faces through `inverse`"""
+    import ast
+    import os
+    tree = ast.parse(open(os.path.join(common.REPO, "trimesh/base.py")).read())
+    cls = next(n for n in tree.body if isinstance(n, ast.ClassDef) and n.name == "Trimesh")
+    out = {}
+    for name in ("update_faces", "update_vertices"):
+        fn = next((f for f in cls.body if isinstance(f, ast.FunctionDef) and f.name == name), None)
+        if fn is None:
+            raise common.Broken("translate", f"base.py: Trimesh.{name} not found")
+        sliced = []
+        for st in ast.walk(fn):
+            if isinstance(st, ast.Assign):
+                tgt, val = ast.unparse(st.targets[0]), ast.unparse(st.value)
+                if val.endswith("[mask]"):
+                    sliced.append(tgt.replace("self.", "").split("[")[0])
+                if "inverse[" in val and tgt == "self.faces":
+                    sliced.append("faces<-inverse")
+            if isinstance(st, ast.Expr) and isinstance(st.value, ast.Call):
+                c_ = ast.unparse(st.value)
+                if c_ in ("self.visual.update_faces(mask)", "self.visual.update_vertices(mask)"):
+                    sliced.append("visual")
+        out[name] = sorted(set(sliced))
+    L = ["-- GENERATED by harness/props/C07.py from /repo/trimesh/base.py (ast) -- do not edit",
+         "namespace TV.Generated.C07",
+         "/-- what `update_faces(mask)` indexes with the mask -/",
+         "def updateFacesSlices : List String := [" + ", ".join(f'"{k}"' for k in out["update_faces"]) + "]",
+         "/-- what `update_vertices(mask)` indexes with the mask, and the re-indexing of the faces -/",
+         "def updateVerticesSlices : List String := [" + ", ".join(f'"{k}"' for k in out["update_vertices"]) + "]",
+         "end TV.Generated.C07"]
+    return {"C07Table.lean": "\n".join(L) + "\n"}
+
+
+def generated_obligations():
+    return 1
